@@ -272,9 +272,11 @@ Commit(bt) ==
     /\ gen' = gen + 1
     /\ pc' = "hist"
 
-Next == \/ Mix \/ (\E f \in Bfs : Weigh(f)) \/ Normalise
-        \/ (\E h2 \in ReplSet : Replace(h2))
-        \/ (\E bt \in BatchSet : Commit(bt))
+\* (guards first: the candidate sets are not even enumerated unless the object is reused and a query has completed)
+DoReplace == Reuse /\ pc = "done" /\ gen < GenMax /\ \E h2 \in ReplSet : Replace(h2)
+DoCommit  == Reuse /\ pc = "done" /\ gen < GenMax /\ \E bt \in BatchSet : Commit(bt)
+
+Next == Mix \/ (\E f \in Bfs : Weigh(f)) \/ Normalise \/ DoReplace \/ DoCommit
 
 Spec == Init /\ [][Next]_vars
 
